@@ -45,21 +45,23 @@ type Entry struct {
 
 type ErrInfo struct {
 	Text   string
+	Loc    string
 	Fatal  bool
 	Severe bool
 }
 
 // ListResult is everything one `list` run returned.
 type ListResult struct {
-	Entries []Entry
-	Peers   []PeerInfo
-	Err     string // returned error ("" = nil)
-	HasErr  bool
-	Errs    []ErrInfo
-	Panic   string // recovered panic value + stack ("" = none)
-	Output  string // formatted output if requested
-	OutErr  string
-	Exposed []ExposedInfo
+	Entries  []Entry
+	Peers    []PeerInfo
+	Err      string // returned error ("" = nil)
+	HasErr   bool
+	Errs     []ErrInfo
+	Panic    string // recovered panic value + stack ("" = none)
+	Output   string // formatted output if requested
+	OutErr   string
+	Exposed  []ExposedInfo
+	ScanErrs int // ViaInfos only: errors the directory scan itself returned (they never reach the analyzer on that route)
 	// raw handles for monitors that need the real objects (same process only)
 	RawConns []connlist.Peer2PeerConnection
 	RawPeers []connlist.Peer
@@ -162,7 +164,8 @@ func List(dir string, o ListOpts) (res *ListResult) {
 	var peers []connlist.Peer
 	var err error
 	if o.ViaInfos {
-		infos, _ := fsscanner.GetResourceInfosFromDirPath([]string{dir}, true, false)
+		infos, scanErrs := fsscanner.GetResourceInfosFromDirPath([]string{dir}, true, false)
+		res.ScanErrs = len(scanErrs)
 		conns, peers, err = ca.ConnlistFromResourceInfos(infos)
 	} else {
 		conns, peers, err = ca.ConnlistFromDirPath(dir)
@@ -181,7 +184,7 @@ func List(dir string, o ListOpts) (res *ListResult) {
 	for _, e := range ca.Errors() {
 		e := e
 		res.Errs = append(res.Errs, ErrInfo{Fatal: e.IsFatal(), Severe: e.IsSevere(),
-			Text: SafeErrText(func() string { return e.Error().Error() })})
+			Text: SafeErrText(func() string { return e.Error().Error() }), Loc: SafeErrText(func() string { return e.Location() })})
 	}
 	if o.Exposure {
 		res.Exposed = exposedInfos(ca.ExposedPeers())
